@@ -57,6 +57,8 @@ def leaf_value(arr, j, lead=()):
     a = np.asarray(arr)
     if a.shape != tuple(lead) + (j + 1,):
         return None
+    if not np.issubdtype(a.dtype, np.integer):
+        return None          # the naive loop of an integer stepper on an integer state yields integers: a changed dtype is a changed result
     if not (a == a[..., :1]).all():
         return None
     return a[..., 0]
@@ -322,6 +324,37 @@ def check_wrappers(run, jax, jnp, ex, rng, tier):
                         run.violation(dict(key, what=f"ForcedStepper(RepeatedStepper(., {m})).step_fourier"), {})
 
 
+def check_dtypes(run, jax, jnp, ex):
+    """rollout / repeat leave the dtype of every leaf alone (complex Fourier-space states, integer counters, mixed pytrees), as the naive
+    loop does, for every flag combination."""
+    def step(s):
+        return {"u": s["u"] * (0.5 + 0.25j) if jnp.iscomplexobj(s["u"]) else s["u"] * 0.5, "step": s["step"] + 1}
+    for udt in (jnp.complex128, jnp.float64, jnp.float32, jnp.complex64):
+        s0 = {"u": jnp.arange(1, 4).astype(udt), "step": jnp.asarray(0, dtype=jnp.int32)}
+        for n in (0, 1, 3):
+            for init in (False, True):
+                run.case(("dtype", str(udt), n, init))
+                key = {"kind": "dtype", "what": f"rollout n={n} include_init={init} dtype={jnp.dtype(udt).name}"}
+                try:
+                    trj = ex.rollout(step, n, include_init=init)(s0)
+                    fin = ex.repeat(step, n)(s0)
+                except Exception as e:  # noqa: BLE001
+                    run.violation(dict(key, mode="raised"), {"exception": repr(e)[:300]})
+                    continue
+                want, cur = ([s0] if init else []), s0
+                for _ in range(n):
+                    cur = step(cur)
+                    want.append(cur)
+                for leaf in ("u", "step"):
+                    got = np.asarray(trj[leaf])
+                    ref = np.stack([np.asarray(w[leaf]) for w in want]) if want else np.zeros((0,) + np.asarray(s0[leaf]).shape, dtype=np.asarray(s0[leaf]).dtype)
+                    if got.dtype != ref.dtype or got.shape != ref.shape or not np.array_equal(got, ref):
+                        run.violation(dict(key, mode=f"rollout leaf {leaf}"), {"got_dtype": str(got.dtype), "want_dtype": str(ref.dtype), "shape": list(got.shape)})
+                    gf = np.asarray(fin[leaf])
+                    if gf.dtype != np.asarray(cur[leaf]).dtype or not np.array_equal(gf, np.asarray(cur[leaf])):
+                        run.violation(dict(key, mode=f"repeat leaf {leaf}"), {"got_dtype": str(gf.dtype)})
+
+
 def check_ic_set(run, jax, jnp, ex):
     import jax.random as jr
     for D, N in ((1, 16), (2, 8)):
@@ -421,6 +454,7 @@ def run(tier: str, seed: int) -> int:
     # (C) wrappers
     check_wrappers(run_, jax, jnp, ex, rng, tier)
     check_ic_set(run_, jax, jnp, ex)
+    check_dtypes(run_, jax, jnp, ex)
     run_.extra['t_wrappers'] = round(_t.time() - _t0, 1)
     run_.rule = ("replay: one case per terminal TLC state (configuration) x {eager, jit}; trace: one recorded execution per configuration "
                  "x {python-loop scan, jitted with ordered callback}; wrappers: (class, D, N, m); distinct = distinct case key")
